@@ -176,7 +176,7 @@ def check_composition(ctx, mat, m):
 #     (Tk=2503.7 gives 0.219; Tk=2230.55 + 273.15, one ulp higher, is complex again.)  Reported by an independent
 #     engineer on the unchanged tree; with the flag set a complex value with a positive real part and a negligible
 #     imaginary part is tolerated at that one temperature; every other spot value of Sodium is live.
-KNOWN_DEFECT_sodium_complex_at_upper_end = False
+KNOWN_DEFECT_sodium_complex_at_upper_end = False  # repaired in /repo (fix: 4116f8a)
 COMPLEX_AT = {("Sodium", "pseudoDensity", "upper end"), ("Sodium", "density", "upper end")}
 
 
